@@ -849,6 +849,8 @@ async fn merge_on_interval(handle: Handle, mut shutdown: Shutdown) -> Result<(),
             if let Err(e) = tokio::task::spawn_blocking(move || handle.merge()).await? {
                 error!(cause=?e, "merge error");
             }
+            #[cfg(feature = "verif")]
+            crate::verif::emit(crate::verif::Ev::Point("bg:merge:done"));
         }
     }
     Ok(())
@@ -875,6 +877,8 @@ async fn sync_on_interval(handle: Handle, mut shutdown: Shutdown) -> Result<(), 
             if let Err(e) = tokio::task::spawn_blocking(move || handle.sync()).await? {
                 error!(cause=?e, "sync error");
             }
+            #[cfg(feature = "verif")]
+            crate::verif::emit(crate::verif::Ev::Point("bg:sync:done"));
         }
     }
     Ok(())
